@@ -229,6 +229,15 @@ class Acct:
         if sp is not None:
             s_op, n = sp
             return ladd(self.str_len_op(s_op, roots), n if isinstance(n, dict) else lin(n), -1)
+        so = self.split_piece(pl)
+        if so is not None:
+            # `s.split_once(P)` = Some((a, b)) with len(a) + len(P) + len(b) = len(s): a has a length of its own
+            # (one symbol per split), b the rest
+            s_op, n, which, l0 = so
+            a = lin(**{"sp#%d" % l0: 1})
+            if which == 0:
+                return a
+            return ladd(ladd(self.str_len_op(s_op, roots), lin(n), -1), a, -1)
         if getattr(self, "_sym_roots", None) is not None:
             return lin(**{"s#%s" % key: 1})
         raise Undecidable("length of %s" % key)
@@ -260,6 +269,29 @@ class Acct:
         else:
             return None
         return t["args"][0], n
+
+    def split_piece(self, pl):
+        """`(x as Some).0.k` with x = s.split_once(P) / s.rsplit_once(P), P a constant char or string:
+        (operand of s, byte length of P, k, the local x)"""
+        p = [x for x in pl["p"] if x != "deref"]
+        if len(p) != 3 or not (isinstance(p[0], dict) and p[0].get("dc") == "Some" and all(isinstance(x, dict) and "f" in x for x in p[1:])
+                               and str(p[1]["f"]) == "0" and str(p[2]["f"]) in ("0", "1")):
+            return None
+        l0 = self.root(pl["l"])
+        d = self.whole_def(l0)
+        if d is None or d[0] != "call":
+            return None
+        t = d[3]
+        if not re.search(r"<impl str>::r?split_once$", callee_name(t)) or len(t["args"]) != 2:
+            return None
+        c = self.op_const(t["args"][1])
+        if isinstance(c, str):
+            n = len(c.encode())
+        elif isinstance(c, int) and 0 <= c < 0x110000:
+            n = len(chr(c).encode())
+        else:
+            return None
+        return t["args"][0], n, int(str(p[2]["f"])), l0
 
     def place_key(self, pl):
         base = self.follow_ref(pl["l"]) if all(not isinstance(x, dict) for x in pl["p"]) else self.root(pl["l"])
@@ -744,6 +776,12 @@ def normaliser_report(ctx, body):
         item_name = "len(piece)"
         roots[loop_info[0][4]] = item_name
     inputs = [k for k in cut_from if k not in roots]
+    if len(inputs) != 1:
+        # pieces that are not slices of one string by index (`split_once` halves, ...): a function with a single
+        # `&str` parameter rewrites that parameter; what the pieces add up to is decided below in its terms
+        sp = [i for i in range(1, b.argc + 1) if re.match(r"&('\w+ )?str$", b.local_ty(i))]
+        if len(sp) == 1 and b.kind in ("Fn", "AssocFn"):
+            inputs = [A.str_key_local(sp[0])]
     if len(inputs) != 1:
         return [(False, "pieces are cut from %d different strings (%s)" % (len(inputs), inputs))]
     roots[inputs[0]] = "len(text)"
